@@ -963,7 +963,31 @@ func c12MapperNeverCreates(p *P, r *R) {
 			if !okc {
 				detail = "flags not constant"
 			} else if !ok {
-				detail = "the function never runs a creator"
+				// an open helper: judged at its call sites (each must lie in a function that runs a creator, and no
+				// mapping-only step may follow it)
+				sites := 0
+				ok = true
+				for _, g := range p.fnList {
+					for _, si := range findInstrs(g, p.mCall(p.fname(f))) {
+						sites++
+						if !p.may(g, mCreator, 3) {
+							ok = false
+						} else if okp, _ := p.findBadPath(g, []Point{pointOf(si)}, pathOpts{StartFacts: true, Bad: func(in ssa.Instruction) bool {
+							if _, isCall := in.(*ssa.Call); !isCall {
+								return false
+							}
+							return p.evMay(in, mMapper, 3) && !p.evMay(in, mCreator, 3)
+						}}); !okp {
+							ok = false
+						}
+					}
+				}
+				if sites == 0 {
+					ok = false
+				}
+				if !ok {
+					detail = "neither the function nor all of its callers run a creator"
+				}
 			} else {
 				// and what was opened for creation is never handed to a mapping-only step (branch-consistent from the open)
 				okp, res := p.findBadPath(f, []Point{pointOf(ci)}, pathOpts{StartFacts: true, Bad: func(in ssa.Instruction) bool {
